@@ -172,7 +172,8 @@ def generate(rng, cfg):
             node = Node(nid, kind)
             node.tzids = _entry_tzids(props)
             parent.children.append(node)
-            trace.append([c, "add_comp", {"id": nid, "parent": parent.id, "kind": kind, "via": via, "props": props}])
+            trace.append([c, "add_comp", {"id": nid, "parent": parent.id, "kind": kind, "via": via, "props": props,
+                                          "lower": via == "parse" and rng.random() < 0.15}])
         elif op == "add_prop":
             nodes = [n for n in root.walk() if n.kind in KINDS]
             if not nodes:
@@ -330,8 +331,10 @@ def prop_line(p):
     return f"{p['name']}{par}:{_fmt(p['vals'][0])}"
 
 
-def comp_text(kind, props):
-    lines = [f"BEGIN:{kind}"] + [prop_line(p) for p in props] + [f"END:{kind}"]
+def comp_text(kind, props, lower=False):
+    b, e = ("begin", "end") if lower else ("BEGIN", "END")
+    k = kind.lower() if lower else kind
+    lines = [f"{b}:{k}"] + [prop_line(p) for p in props] + [f"{e}:{k}"]
     return "\r\n".join(lines) + "\r\n"
 
 
@@ -449,7 +452,7 @@ def execute(run, res):
                      "VALARM": C.Alarm}.get(a["kind"])
             try:
                 if a["via"] == "parse":
-                    comp = C.Component.from_ical(comp_text(a["kind"], a["props"]))
+                    comp = C.Component.from_ical(comp_text(a["kind"], a["props"], a.get("lower", False)))
                 else:
                     comp = klass() if klass else C.Component()
                     if not klass:
